@@ -87,7 +87,7 @@ Theorem C10_forward_stamp : forall val rt vnet vfront vempty route kinst (h : li
   obs_at val rt vnet vfront vempty route kinst h (OForward sid) =
   match fmap val rt vnet vfront h sid with
   | Some m => match route m with
-              | Some i => BFwd i (id_of val vempty m) vfront sid
+              | Some i => BFwd i (id_of val vempty m) (vfront sid) sid
               | None => BFwdNone
               end
   | None => BIgnored
@@ -168,6 +168,25 @@ Theorem C10_kept_session : forall val rt vnet vfront vempty (h : list (op val)) 
 Proof. exact kept_session. Qed.
 Print Assumptions C10_kept_session.
 
+(* ... the same holds when the handler was reached by a forwarded NOTIFICATION (nothing is
+   answered; the session is the notifying connection's on the front-end it is connected to) ... *)
+Theorem C10_kept_session_notify : forall val rt vnet vfront vempty route kinst (h : list (op val)) sid b m,
+  fmap val rt vnet vfront h sid = Some m -> bsid val h b = None ->
+  obs_at val rt vnet vfront vempty route kinst h (OForwardKeepN sid b) = BUnit /\
+  bsess_of val rt vnet vfront vempty (h ++ [OForwardKeepN sid b]) b =
+  bsess_of val rt vnet vfront vempty (h ++ [OForwardKeep sid b]) b.
+Proof. exact kept_session_notify. Qed.
+Print Assumptions C10_kept_session_notify.
+
+(* ... and for ever after: replace, anywhere in any history, notifications by requests - no
+   connection's map and no handle's session differs.  Whatever a handler may do with the session
+   of a forwarded request it may do with the session of a forwarded notification. *)
+Theorem C10_notify_as_request : forall val rt vnet vfront vempty (h : list (op val)),
+  (forall sid, fmap val rt vnet vfront (map (as_request val) h) sid = fmap val rt vnet vfront h sid) /\
+  (forall b, bsess_of val rt vnet vfront vempty (map (as_request val) h) b = bsess_of val rt vnet vfront vempty h b).
+Proof. exact notify_as_request. Qed.
+Print Assumptions C10_notify_as_request.
+
 (* ... it addresses that connection for as long as it is used, whatever happens meanwhile (other
    forwarded requests of other connections served by the same back-end, other handles) ... *)
 Theorem C10_handle_identity : forall val (h h' : list (op val)) b s,
@@ -214,9 +233,21 @@ Example C10_example_window :
 Proof. vm_compute. reflexivity. Qed.
 
 (* the hypotheses of C10_push_law / C10_query_full / C10_dead_session are met by reachable histories *)
+(* two front-ends whose connection ids coincide (connections 1 and 101 are both connection "1" of
+   their front-end): the forwarded envelope names the right front-end, sessions kept from
+   notifications write to the right one *)
+Example C10_example_two_fronts :
+  model_run [OConnect 1; OConnect 101; OForward 1; OForward 101; OForwardKeepN 1 1; OForwardKeepN 101 2;
+             OBackScript 2 [ASet 4 (VInt 7); APush; AQuery]; OBackGet 2 2; OFrontGet 1 4; OFrontGet 101 4;
+             OBackScript 1 [AKick]; OFrontDump 1; OFrontDump 101]
+  = [BUnit; BUnit; BFwdNone; BFwdNone; BUnit; BUnit; BAcks [true; true]; BVal (Some (VStr 10));
+     BVal None; BVal (Some (VNum 7)); BAcksClosed [] [(1, VNum 1); (2, VStr 0)]; BIgnored;
+     BMap [(1, VNum 101); (2, VStr 10); (4, VNum 7)]].
+Proof. vm_compute. reflexivity. Qed.
+
 Example C10_example_hyps :
   let h := [OConnect 1; OBackNew 1 1; OBackSet 1 4 (VInt 5)] in
   bsid cval h 1 = Some 1 /\ bdirty cval h 1 = true /\
-  fmap cval crt VInt (VStr 0) h 1 = Some [(1, VInt 1); (2, VStr 0)] /\
-  fmap cval crt VInt (VStr 0) (h ++ [ORemove 1]) 1 = None.
+  fmap cval crt VInt cfront h 1 = Some [(1, VInt 1); (2, VStr 0)] /\
+  fmap cval crt VInt cfront (h ++ [ORemove 1]) 1 = None.
 Proof. vm_compute. repeat split; reflexivity. Qed.
